@@ -316,7 +316,7 @@ def geo_spec(draw, dim, kinds=("affine", "bilinear", "spline", "nurbs", "named")
             name = draw(st.sampled_from(["quarter_annulus", "bspline_quarter_annulus", "unit_square"]))
         else:
             name = "unit_cube"
-        r1 = draw(st.sampled_from([0.5, 1.0, 1.5]))
+        r1 = draw(st.sampled_from([0.05, 0.25, 1.0]))
         return {"kind": "named", "name": name, "dim": dim, "r1": r1, "r2": r1 + draw(st.sampled_from([0.5, 1.0, 2.0]))}
     g = draw(gg.geometry_map(dim, pmax=3 if dim < 3 else 2, nmax=2, nurbs=(kind == "nurbs")))
     if kind == "affine":
@@ -598,7 +598,7 @@ def check_proj_tp(spec, ctx):
 def strat_proj_tp(draw, tier):
     kvs = draw(tp_space(tier=tier))
     d = len(kvs)
-    data = draw(data_spec(d, ["inspace", "inspace", "pp", "general"], ["callable", "callable", "tuple", "object", "natural"]))
+    data = draw(data_spec(d, ["inspace", "pp", "general", "general"], ["callable", "callable", "tuple", "object", "natural"]))
     return {"kvs": kvs, "data": data, "bare": draw(st.booleans())}
 
 
@@ -686,7 +686,7 @@ def check_proj_geo(spec, ctx):
     space_flags(ctx, kvspecs)
     data_flags(ctx, dspec)
     ctx.flag("geo:" + gclass, "exact_integrals" if exact else "property_rule",
-             "detJ_ratio>3" if Q.detratio > 3 else None)
+             "detJ_ratio>3" if Q.detratio > 3 else None, "detJ_ratio>10" if Q.detratio > 10 else None)
     ctx.nontrivial = True
 
 
@@ -703,7 +703,7 @@ def strat_proj_geo(draw, tier):
             kinds += ["inspace", "pp"]
         forms = ["callable", "natural", "tuple"]
     else:
-        kinds = ["inspace", "inspace", "pp", "general"]
+        kinds = ["inspace", "pp", "general", "general"]
         forms = ["callable", "natural", "tuple", "object"]
     data = draw(data_spec(d, kinds, forms, vshapes=((), (), (), (2,), (2, 2))))
     return {"kvs": kvs, "geo": geo, "physical": physical, "data": data}
@@ -789,9 +789,11 @@ def _tiny_hspace(dim):
     return hs
 
 
-def make_hier_setup(dim):
+def make_hier_setup(dim, tiers=("quick", "thorough")):
     def setup(tier):
         """Compile the mass form and both L2 functionals for this dimension once per worker."""
+        if tier not in tiers:
+            return
         from pyiga import approx
         hs = _tiny_hspace(dim)
         f = lambda *X: 1.0 + 0.0 * X[0]
@@ -822,17 +824,33 @@ def check_hier(spec, ctx):
         raise Skip("reference too large")
     Q = Quad(kns_f, nq, georef)
     Phi = Q.Phi @ B
-    # data: in the hierarchical space (random coefficients) or piecewise polynomial on the level-0 mesh
+    # data: (a) "coarse": a level-0 tensor-product spline (in the space, piecewise polynomial on the level-0 mesh),
+    # (b) "inspace": a generic function of the hierarchical space (random coefficients on all levels),
+    # (c) "pp": piecewise polynomial of degree p(+1) on the level-0 mesh, outside the space
+    fine_part = False
+    shape_f = tuple(len(t) - p - 1 for t, p in kns_f)
     if dspec["kind"] == "inspace":
         cstar = cyc(dspec["seed"], nd).reshape(nd, 1)
-        fine = (B @ cstar).reshape(tuple(len(t) - p - 1 for t, p in kns_f))
-        sp = SplineFn(kns_f, fine)
+        n0 = len(ref.functions(0)[0])
+        fine_part = bool(np.any(cstar[n0:] != 0.0))
+        sp = SplineFn(kns_f, (B @ cstar).reshape(shape_f))
+        obj_kns = kns_f
+    elif dspec["kind"] == "coarse":
+        N0 = tuple(len(t) - p - 1 for t, p in kns_0)
+        c0 = cyc(dspec["seed"], int(np.prod(N0)))
+        sp = SplineFn(kns_0, c0.reshape(N0))
+        fine = ref.rep(0, L - 1) @ c0
+        cstar = np.linalg.lstsq(B, fine, rcond=None)[0].reshape(nd, 1)
+        if float(np.max(np.abs(B @ cstar[:, 0] - fine))) > 1e-9 * max(1.0, float(np.max(np.abs(c0)))):
+            raise RuntimeError("reference model: level-0 function not representable in the hierarchical basis")
+        obj_kns = kns_0
     else:
         cstar = None
         elev = min(dspec["elev"], 0 if gclass == "bilinear" else 1)
         dk = pp_knots(kns_0, dspec, elev)
         Nd = tuple(len(t) - p - 1 for t, p in dk)
         sp = SplineFn(dk, cyc(dspec["seed"], int(np.prod(Nd))).reshape(Nd))
+        obj_kns = None
     F = np.asarray(sp.grid(Q.grid), dtype=float).reshape(-1, 1)
     argscale = 1.0
     if physical and geo is not None:
@@ -844,8 +862,8 @@ def check_hier(spec, ctx):
             Xb = np.broadcast_arrays(*[np.asarray(x, dtype=float) for x in X])
             xi = (np.stack(Xb, axis=-1) - b) @ Ainv.T
             return sp(*[xi[..., j] for j in range(d)])
-    elif dspec["as"] == "object" and dspec["kind"] == "inspace":
-        f = bspline.BSplineFunc(tuple(bspline.KnotVector(np.array(t), p) for t, p in kns_f), sp.co.copy())
+    elif dspec["as"] == "object" and obj_kns is not None and not physical:      # spline objects are parametric data
+        f = bspline.BSplineFunc(tuple(bspline.KnotVector(np.array(t), p) for t, p in obj_kns), sp.co.copy())
     else:
         f = sp
     delta = arg_delta(kns_f, argscale)
@@ -856,7 +874,10 @@ def check_hier(spec, ctx):
         kw["f_physical"] = True
     got = ctx.sut(approx.project_L2, hs, f, what="approx.project_L2(HSpace)", **kw)
     G = as_matrix(ctx, "project_shape", got, (nd,), ())
-    judge_projection(ctx, Phi, Q.W, F, G, cstar, delta)
+    ctx.flag("data_with_fine_level_part" if fine_part else None)
+    # generic functions of the space with components on finer levels are reported under their own oracle
+    # names (open finding hierarchical_load_vector_coarse_cells)
+    judge_projection(ctx, Phi, Q.W, F, G, cstar, delta, prefix="hier_generic_" if fine_part else "")
     ctx.flag("dim%d" % d, "levels%d" % L, "thb" if hist["truncate"] else "hb", "disparity_%s" % hist["disparity"],
              "geo:" + gclass, "physical_data" if physical else None, "data:" + dspec["kind"], "as:" + dspec["as"],
              "bdspecs:" + ("none" if hist.get("bdspecs") is None else ("empty" if not hist["bdspecs"] else "faces")),
@@ -875,7 +896,7 @@ def strat_hier(dim):
         physical = draw(st.booleans())
         if geo is not None and geo["amp"] != 0.0:
             physical = False        # no closed-form inverse of a non-affine map
-        kind = draw(st.sampled_from(["inspace", "pp"]))
+        kind = draw(st.sampled_from(["coarse", "coarse", "pp", "pp", "inspace"]))
         data = {"kind": kind, "vshape": [], "as": draw(st.sampled_from(["callable", "object"])),
                 "seed": [draw(st.integers(-12, 12)) for _ in range(17)], "elev": draw(st.integers(0, 1)),
                 "msel": [draw(st.integers(0, 7)) for _ in range(5)]}
@@ -903,6 +924,18 @@ SUBCHECKS = [
     Sub("hier_2d", check_hier, strategy=lambda tier: strat_hier(2)(tier), quick=60, thorough=1500, floor=10, shards=2,
         setup=make_hier_setup(2), timeout_q=900, timeout_t=3000,
         rule="HB/THB spaces from refinement histories, dim 2, identity/affine/bilinear geometry"),
+    Sub("hier_3d", check_hier, strategy=lambda tier: strat_hier(3)(tier), quick=0, thorough=200, floor=0, shards=2,
+        setup=make_hier_setup(3, tiers=("thorough",)), timeout_q=300, timeout_t=3000,
+        rule="HB/THB spaces from refinement histories, dim 3 (thorough tier only), identity/affine geometry"),
 ]
 
-KNOWN = {}
+
+def _known_hier_load_vector(spec, viol):
+    """Open finding hierarchical_load_vector_coarse_cells: the load vector of a level-l function is integrated
+    with the Gauss rule of the level-l mesh even where that mesh is refined, so data that is not polynomial on
+    the coarse cells (a function of the hierarchical space with components on finer levels) is not reproduced."""
+    return ("hist" in spec and spec.get("data", {}).get("kind") == "inspace"
+            and getattr(viol, "oracle", "") in ("hier_generic_orthogonality", "hier_generic_reproduce"))
+
+
+KNOWN = {"hierarchical_load_vector_coarse_cells": _known_hier_load_vector}
